@@ -561,6 +561,16 @@ def do_replay(mod, path):
   return 0
 
 
+def warm_up(mod):
+  """A few throw-away runs so that one-time initialisations (module caches, lazily created
+  locks, linecache...) have happened before the first recorded run - in search workers, in the
+  minimiser and in replay processes alike."""
+  n = getattr(mod, 'WARMUP', 0)
+  for i in range(n):
+    tp = tape_mod.Tape(tape_mod.derive_seed('warmup', mod.PROPERTY, i))
+    run_guarded(mod, tp, 120)
+
+
 def main(mod, argv):
   import argparse
   ap = argparse.ArgumentParser()
@@ -578,6 +588,7 @@ def main(mod, argv):
   print('VERIF_SEED=%d property=%s tier=%s' % (seed, mod.PROPERTY, tier))
   sys.stdout.flush()
   mod.setup()
+  warm_up(mod)
   if args.replay:
     return do_replay(mod, args.replay)
   if args.index is not None:
